@@ -36,7 +36,13 @@
 (*   Duplicate       a successful Gen returns an id that is outstanding                       *)
 (*   Taken           a successful Gen returns an id that was taken before the trace began     *)
 (*                   (":repo": taken according to the caller's repository - "a returned id    *)
-(*                   was free at return" for GenerateUniqueXxxID)                             *)
+(*                   was free at return" for GenerateUniqueXxxID; not asked of a Ret that     *)
+(*                   carries assumed = TRUE: the caller's check function failed in that call  *)
+(*                   and the code, deliberately, assumes the id free.  Everything else is     *)
+(*                   demanded of such an id as of any other: it is outstanding, so it must    *)
+(*                   keep its marker - Unmarked - and must not be handed out again -          *)
+(*                   Duplicate; uniq traces end with another manager drawing every            *)
+(*                   outstanding id once more)                                                *)
 (*   UncleanFailure  a Gen that fails does so with anything but the exhaustion error, or      *)
 (*                   (allocator) fails but keeps an id as its own (":stale-own-id")           *)
 (*                   ("fails cleanly instead of duplicating": with every candidate taken the  *)
@@ -94,7 +100,7 @@ TrRet == /\ Is("Ret")
             THEN IF Ev.ok
                  THEN /\ viol' = viol
                            \cup (IF Ev.id \in taken THEN {V("Taken", d)} ELSE {})
-                          \cup (IF Ev.id \in repo THEN {V("Taken", d \o ":repo")} ELSE {})
+                          \cup (IF Ev.id \in repo /\ ~(Has("assumed") /\ Ev.assumed) THEN {V("Taken", d \o ":repo")} ELSE {})
                            \cup (IF scope /\ \E r \in out : r.id = Ev.id
                                  THEN {V("Duplicate", d \o (IF Ev.id \in expired THEN ":after-expiry" ELSE ""))}
                                  ELSE {})
